@@ -493,12 +493,12 @@ theorem combinatorDecl_good {outer : Pos} {ts : List Token} {b isF : Bool} (h : 
     · exact ⟨he1, hs1, hlt1⟩
     · exact ⟨hm, ho⟩
 
-theorem parseCombinator_good {ts cs : List Token} {isF ab : Bool} (h : Inv text ts) (hcs : ToksOK text cs) (hw : WSPre cs ts) :
-    ∃ t0 r0, skipWS ts = some (t0, r0) ∧ (t0 :: r0) <:+ ts ∧
-      (parseCombinator text cs ts isF ab).Good (t0 :: r0) t0.pos (Lt ts) := by
+theorem parseCombinatorPre_good {ts cs : List Token} {isF ab : Bool} (h : Inv text ts) (hcs : ToksOK text cs) (hw : WSPre cs ts) :
+    ∃ t0 r0, skipWS ts = some (t0, r0) ∧ (t0 :: r0) <:+ ts ∧ Inv text (t0 :: r0) ∧
+      (parseCombinatorPre text cs ts isF ab).Good (t0 :: r0) t0.pos (Lt ts) := by
   obtain ⟨t0, r0, h0, he0, hws0, hpre0⟩ := skipWS_ok h.eof
-  refine ⟨t0, r0, h0, hpre0.suffix, ?_⟩
-  unfold parseCombinator
+  refine ⟨t0, r0, h0, hpre0.suffix, h.suffix hpre0.suffix he0, ?_⟩
+  unfold parseCombinatorPre
   rw [h0]; simp only []
   have hl0 := hpre0.suffix.length_le
   have hi0 := h.suffix hpre0.suffix he0
@@ -532,30 +532,42 @@ theorem parseCombinator_good {ts cs : List Token} {isF ab : Bool} (h : Inv text 
             cases b8 with
             | false => exact errFront_good he8 hs8'
             | true =>
-              simp only []
-              obtain ⟨he9, hw9⟩ := skipToNewline_ok he8
-              cases hsk : skipToNewline r8 with
-              | mk nl r9 =>
-                rw [hsk] at he9 hw9
-                simp only [] at he9 hw9 ⊢
-                have hcr : ∃ cr, (if nl = true then parseCommentRight text r8 r9 else some []) = some cr := by
-                  cases nl with
-                  | false => exact ⟨[], by simp⟩
-                  | true =>
-                    simp only [if_true]
-                    exact parseCommentRight_ok (hi0.ok.suffix hs8') hw9 he9.ne_nil
-                obtain ⟨cr, hcr⟩ := hcr
-                rw [hcr]; simp only []
-                rw [needFront_of he9]
-                simp only [Bool.not_true, Bool.false_eq_true, if_false]
-                refine ⟨he9, hw9.suffix.trans hs8', ?_⟩
-                have := hw9.suffix.length_le; have := hs8.length_le; have := hs7.length_le; have := hs6.length_le
-                have := hs4.length_le; have := hpre3.suffix.length_le; have := hs1.length_le
-                simp only [Lt] at *; omega
+              refine ⟨he8, hs8', ?_⟩
+              have := hs8.length_le; have := hs7.length_le; have := hs6.length_le
+              have := hs4.length_le; have := hpre3.suffix.length_le; have := hs1.length_le
+              simp only [Lt] at *; omega
           · exact ⟨hs6'.subset hm, ho⟩
         · exact ⟨hs4'.subset hm, ho⟩
       · exact ⟨hs3.subset hm, ho⟩
     · exact ⟨hs1.subset hm, ho⟩
+  · exact ⟨hm, ho⟩
+
+
+theorem parseCombinator_good {ts cs : List Token} {isF ab : Bool} (h : Inv text ts) (hcs : ToksOK text cs) (hw : WSPre cs ts) :
+    ∃ t0 r0, skipWS ts = some (t0, r0) ∧ (t0 :: r0) <:+ ts ∧
+      (parseCombinator text cs ts isF ab).Good (t0 :: r0) t0.pos (Lt ts) := by
+  obtain ⟨t0, r0, h0, hs0, hi0, hg⟩ := parseCombinatorPre_good (text := text) (isF := isF) (ab := ab) h hcs hw
+  refine ⟨t0, r0, h0, hs0, ?_⟩
+  unfold parseCombinator
+  rcases hg.cases with ⟨td, r8, hx, he8, hs8', hlt8⟩ | ⟨e, hx, hm, ho⟩ <;> rw [hx] <;> simp only []
+  · obtain ⟨he9, hw9⟩ := skipToNewline_ok he8
+    cases hsk : skipToNewline r8 with
+    | mk nl r9 =>
+      rw [hsk] at he9 hw9
+      simp only [] at he9 hw9 ⊢
+      have hcr : ∃ cr, (if nl = true then parseCommentRight text r8 r9 else some []) = some cr := by
+        cases nl with
+        | false => exact ⟨[], by simp⟩
+        | true =>
+          simp only [if_true]
+          exact parseCommentRight_ok (hi0.ok.suffix hs8') hw9 he9.ne_nil
+      obtain ⟨cr, hcr⟩ := hcr
+      rw [hcr]; simp only []
+      rw [needFront_of he9]
+      simp only [Bool.not_true, Bool.false_eq_true, if_false]
+      refine ⟨he9, hw9.suffix.trans hs8', ?_⟩
+      have := hw9.suffix.length_le
+      simp only [Lt] at *; omega
   · exact ⟨hm, ho⟩
 
 end
